@@ -60,6 +60,13 @@ def advanceB (V : List α) (v : α) (rid : Nat) : Option Nat := scanB v (V.drop 
 /-- Python's `min(a, b)`: `b` only when `b < a` (so a NaN `a` stays) -/
 def pmin (a b : α) : α := if b < a then b else a
 
+/-- Python's `max(a, b)`: `b` only when `b > a` -/
+def pmax (a b : α) : α := if a < b then b else a
+
+/-- `T = min(max(T, t_bwd), t_fwd)` (fix commit 20ed89f): the interpolated time of a spatial sample is kept between the
+two stamps it interpolates (in floats the weighted mean `wbwd·t_bwd + wfwd·t_fwd` may fall one ulp outside) -/
+def clampT (T tb tf : α) : α := pmin (pmax T tb) tf
+
 /-- Python index `running_id - 1` (index `-1` designates the last element). -/
 def bwdIdx (rid len : Nat) : Nat := if rid = 0 then len - 1 else rid - 1
 
@@ -165,7 +172,7 @@ def cum (legs : List α) : List α := cumFrom 0 legs
 def total (legs : List α) : α := legs.foldl (· + ·) 0
 
 /-- the `for k in range(1, N+1)` loop of `__resampleSpatial`: `n` iterations left, current `k`,
-state `running_id`. -/
+state `running_id`; the time handed to `readUnixTime` is the weighted mean clamped to the two stamps (`clampT`). -/
 def spatialLoop (P : List (Fix α)) (S : List α) (sini sfin ds : α) : Nat → Nat → Nat → Except Err (List (Fix α))
   | 0, _, _ => .ok []
   | n + 1, k, rid =>
@@ -180,7 +187,7 @@ def spatialLoop (P : List (Fix α)) (S : List α) (sini sfin ds : α) : Nat → 
         | .error e => .error e
         | .ok out =>
           .ok (⟨wb * pb.x + wf * pf.x, wb * pb.y + wf * pf.y, wb * pb.z + wf * pf.z,
-                wb * pb.t + wf * pf.t⟩ :: out)
+                clampT (wb * pb.t + wf * pf.t) pb.t pf.t⟩ :: out)
 
 /-- `__resampleSpatial` given the list of 2D leg lengths -/
 def resampleSpatialLegs (trunc : α → Int) (P : List (Fix α)) (legs : List α) (ds : α) :
@@ -284,9 +291,6 @@ def sample (sqrt : α → α) (trunc : α → Int) (P : List (Fix α)) (t : α) 
   | .error e => .error e
   | .ok (o :: _, _) => .ok o
   | .ok ([], _) => .error .index
-
-/-- Python's `max(a, b)`: `b` only when `b > a` -/
-def pmax (a b : α) : α := if a < b then b else a
 
 /-- insertion in a non-decreasing list, after the elements that are `≤ v` -/
 def insertAsc (v : α) : List α → List α
